@@ -162,8 +162,26 @@ def check(case):
     return r
 
 
+@st.composite
+def large_cases(draw, tier):
+    """problems with more than 2^16 (and, in the thorough tier, more cells): index arithmetic on the flat arc order"""
+    n, m = draw(st.sampled_from([(258, 256), (256, 258), (300, 300), (257, 255), (64, 1025)] + ([(520, 260)] if tier == "thorough" else [])))
+    return {"n": n, "m": m, "p": [1] * n, "q": [1] * m, "power": 1, "mass_seed": draw(st.integers(0, 2 ** 31 - 1)),
+            "cost": {"kind": draw(st.sampled_from(["uniform", "int", "euclid"])), "seed": draw(st.integers(0, 2 ** 32 - 1))},
+            "scale": 1.0, "layout": draw(st.sampled_from(["C", "T"]))}
+
+
+def check_large(case):
+    rng = np.random.default_rng(case["mass_seed"])
+    case = dict(case, p=[int(x) for x in rng.integers(1, 50, case["n"])], q=[int(x) for x in rng.integers(1, 50, case["m"])])
+    r = check(case)
+    r.labels = [l for l in r.labels if l.startswith(("cost:", "layout:"))] + ["cells:%d" % (case["n"] * case["m"])]
+    return r
+
+
 FAMILIES = {
     "plan": Family(strategy=cases, check=check,
                    examples={"quick": 2400, "thorough": 64000},
                    shards={"quick": 8, "thorough": 16}),
+    "large": Family(strategy=large_cases, check=check_large, examples={"quick": 24, "thorough": 96}, shards={"quick": 4, "thorough": 8}),
 }
